@@ -323,9 +323,7 @@ int verif_fileno(FILE *f)
 ssize_t verif_read(int fd, void *buf, size_t n)
 {
   os_call();
-  if (g.rl.rd_calls < 1000) {
-    g.rl.rd_calls++;
-  }
+  g.rl.rd_calls++; /* unsigned: wraps, so "exactly one more call" is always expressible */
   g.rl.rd_fd = fd;
   g.rl.rd_buf = buf;
   g.rl.rd_n = n;
@@ -390,9 +388,7 @@ ssize_t verif_read(int fd, void *buf, size_t n)
 ssize_t verif_write(int fd, const void *buf, size_t n)
 {
   os_call();
-  if (g.wl.wr_calls < 1000) {
-    g.wl.wr_calls++;
-  }
+  g.wl.wr_calls++;
   g.wl.wr_fd = fd;
   g.wl.wr_buf = buf;
   g.wl.wr_n = n;
